@@ -81,9 +81,9 @@ theorem handlesList_removeNsKidH_sublist (p : Nat) : ∀ ks : List HTree,
       by_cases hv : ∃ q x, v = .namespace q x
       · obtain ⟨q, x, rfl⟩ := hv
         by_cases hq : (q == p) = true
-        · simp only [removeNsKidH, HTree.value, hq, if_true, handlesList_cons]
+        · simp only [removeNsKidH, HTree.value, hq, if_true, fi_handlesList_cons]
           exact List.sublist_append_right _ _
-        · simp only [removeNsKidH, HTree.value, hq, Bool.false_eq_true, if_false, handlesList_cons]
+        · simp only [removeNsKidH, HTree.value, hq, Bool.false_eq_true, if_false, fi_handlesList_cons]
           exact List.Sublist.append (List.Sublist.refl _) ih
       · have h1 : removeNsKidH p (node h v kk :: ks) = node h v kk :: ks := by
           cases v <;> first | (exfalso; exact hv ⟨_, _, rfl⟩) | rfl
